@@ -342,7 +342,7 @@ func main() {
 		syncWorkerMain(*wfrom)
 		return
 	}
-	r.SetBudget(80*time.Second, 12*time.Minute)
+	r.SetBudget(5*time.Minute, 25*time.Minute)
 	fx := newFixture()
 	defer fx.node.stop()
 
